@@ -188,8 +188,19 @@ func (s *Sel) accept(n *Node, out *Outcome, first bool) {
 				out.MustSucceed, out.Why = true, "connect-invalid block stored on a side chain without validation"
 			}
 		}
-		// orphans below it are descendants of an invalid block
-		s.murkOrphansBelow(n)
+		// orphans below it are descendants of an invalid block; when some were
+		// waiting, draining them may attempt (and fail) a reorganisation through
+		// n, whose rule error the call then reports: return value open
+		waiting := false
+		for _, c := range n.Children {
+			if s.Orphan[c] || s.Murky[c] {
+				waiting = true // delivered earlier: sits in the node's orphan pool
+			}
+		}
+		if (s.murkOrphansBelow(n) > 0 || waiting) && first {
+			out.MustSucceed, out.MustError = false, false
+			out.Why = "connect-invalid block with waiting orphans (return value open)"
+		}
 	case Valid:
 		s.Arrived[n] = true
 		delete(s.HeaderKnown, n)
@@ -222,14 +233,16 @@ func (s *Sel) accept(n *Node, out *Outcome, first bool) {
 	}
 }
 
-func (s *Sel) murkOrphansBelow(n *Node) {
+func (s *Sel) murkOrphansBelow(n *Node) int {
+	k := 0
 	for _, c := range n.Children {
 		if s.Orphan[c] {
 			delete(s.Orphan, c)
 			s.Murky[c] = true
-			s.murkOrphansBelow(c)
+			k += 1 + s.murkOrphansBelow(c)
 		}
 	}
+	return k
 }
 
 // moveTip keeps the model tip inside the allowed set; when several tips are
